@@ -4,6 +4,7 @@ import (
 	"errors"
 	"fmt"
 	"runtime"
+	"runtime/debug"
 	"sync"
 	"testing"
 
@@ -219,6 +220,7 @@ func TestC10(t *testing.T) {
 func TestC10ReuseMeasured(t *testing.T) {
 	prevProcs := runtime.GOMAXPROCS(1)
 	defer runtime.GOMAXPROCS(prevProcs)
+	defer debug.SetGCPercent(debug.SetGCPercent(-1)) // a GC cycle empties sync.Pools
 	zap.VerifResetPools()
 	b := &spec.BatchSpec{Docs: []spec.DocSpec{{ID: "x", Fields: []spec.FieldSpec{{Name: "f", Len: 1, Tokens: []spec.TokenSpec{{Term: "t", Freq: 1}}}}}}}
 	for i := 0; i < 5; i++ {
